@@ -3,6 +3,7 @@
 mod sim;
 mod cmd_consts;
 mod cmd_layout;
+mod cmd_recon;
 
 fn main() {
     std::panic::set_hook(Box::new(|_| {}));
@@ -11,6 +12,7 @@ fn main() {
     match cmd {
         "consts" => cmd_consts::run(),
         "layout" => cmd_layout::run(),
+        "recon" => cmd_recon::run(),
         "variant" => {
             println!(
                 "matrix={} ffr={} debug={}",
